@@ -106,8 +106,9 @@ def roundtrip_registry():
 CASCADE = ['_import_pkcs1_private', '_import_pkcs1_public', '_import_subjectPublicKeyInfo', '_import_x509_cert', '_import_pkcs8', '_import_keyDER']
 
 
-def generate_registry():
-    """C05: RSA.generate(bits, randfunc, e).  Built on the PROVED IntegerNative contracts of contracts/integer.py (sqrt, gcd, lcm,
+def generate_registry(rf='tape'):
+    """rf: 'tape' (a caller randfunc) or 'none' (system RNG) -- one worker each.
+    C05: RSA.generate(bits, randfunc, e).  Built on the PROVED IntegerNative contracts of contracts/integer.py (sqrt, gcd, lcm,
     inverse, size_in_bits, shifts, comparisons ...; C14) and the entropy-tape model of contracts/_intcommon.py.  The two calls of
     Primality.generate_probable_prime use a DERIVED contract: the proved contract of unit prime.generate_probable_prime (exact size,
     odd, accepted by test_probable_prime = ghost mark g_tested == 1, prime_filter accepted, all entropy from randfunc), whose
@@ -157,7 +158,7 @@ def generate_registry():
     OI = 'obj:' + IN
     rp, rq, rn, rd, ru, re = ('result._%s' % c for c in 'pqndue')
     bad = 'bits < 1024 or e % 2 == 0 or e < 3'
-    reg.add(Contract(R + 'generate', params={'bits': 'int', 'randfunc': TAPE_T + '|none', 'e': 'int'}, requires=['valid(randfunc)'],
+    reg.add(Contract(R + 'generate', params={'bits': 'int', 'randfunc': TAPE_T if rf == 'tape' else 'none', 'e': 'int'}, requires=['valid(randfunc)'],
                      # bad arguments are refused (every normal return proves `domain`); a ValueError for good arguments can only come from
                      # p.inverse(q), i.e. when the two generated probable primes are not coprime -- impossible for primes
                      raises={'ValueError': ('only_if', 'True')},
@@ -196,13 +197,15 @@ def generate_registry():
 
 
 def units(prop, tier):
+    import functools
     from vf.pyunit import pyvc_unit
     if prop == 'C08':
         return [pyvc_unit(prop, 'key.rsa.eq', registry, [KEY + '.__eq__']),
                 pyvc_unit(prop, 'key.rsa.roundtrip.pkcs1', roundtrip_registry, ['spec.keys_harness.rsa_pkcs1_roundtrip'])]
     if prop == 'C05':
         return [pyvc_unit(prop, 'key.rsa.construct', registry, [R + 'construct']),
-                pyvc_unit(prop, 'key.rsa.generate', generate_registry, [R + 'generate'], timeout_ms=120000)]
+                pyvc_unit(prop, 'key.rsa.generate', generate_registry, [R + 'generate'], timeout_ms=120000),
+                pyvc_unit(prop, 'key.rsa.generate.sysrng', functools.partial(generate_registry, 'none'), [R + 'generate'], timeout_ms=120000)]
     if prop == 'C13':
         return [pyvc_unit(prop, 'key.rsa.import_der', cascade_registry, [R + f for f in CASCADE])]
     return []
